@@ -63,7 +63,7 @@ PAYLOADS = [b"", b"0", b"1", b"20.5", b"a;b", b"55.7;13.0;18", b"a/b", b"x/y;z",
 
 
 def budget(tier):
-    return 8000 if tier == "quick" else 150_000
+    return 8000 if tier == "quick" else 450_000
 
 
 def wall(tier):
